@@ -188,13 +188,60 @@ def run(tier):
         for order in (tpls, list(reversed(tpls))):
             ajobs.append({"cfg": {"prefixes": ["p/", "q/"]}, "steps": [{"op": "add", "tpls": order}] + [{"op": "render", "name": n} for n, _ in order]})
             ameta.append((["names and prefixes"], "default", json.dumps(order)[:300]))
+    # every extends/include digraph over three templates, one of them reachable only through a fallback prefix (MC_Graph,
+    # the enumeration C11 decides): here only "registration and rendering come back"
+    import registry_glue as RG
+    with open(vp.SPEC + "/MC_Graph_run.cfg", "w") as f:
+        f.write(open(vp.SPEC + "/MC_Graph.cfg").read().replace('Place = "all"', 'Place = "body"'))
+    rg = vp.tlc("MC_Graph", "MC_Graph_run", workers=6, timeout=3000, name="c06-graph", xmx="16g")
+    C.add_tlc(rg, "MC_Graph N=3, includes in the body (registration must come back)")
+    for v in rg.tags["VEC"]:
+        tpls = [[n, RG.src(n, d, compname="k")] for n, d in sorted(v["g"].items())]
+        ajobs.append({"cfg": {"prefixes": ["p/"]}, "steps": [{"op": "add", "tpls": tpls}] + ([{"op": "render", "name": n} for n, _ in tpls] if v["ok"] else [])})
+        ameta.append((["graph"], "default", json.dumps(tpls)[:300]))
+    # component signatures: every sequence of <= 3 signature atoms between the parentheses of a component definition
+    # (MC_Atoms again), with and without metadata, and as the attributes of a call
+    SIG = ["p", "q", ": ", "string", "strng", "number", "= ", "1", "-1", "1.5", "'a'", "[1]", "{}", "{'a': 1}", "none", "true", ", ", "...rest", "...", ":", "=", "p, p", "(", ")", "é"]
+    with open(vp.SPEC + "/MC_Atoms_run.cfg", "w") as f:
+        f.write(open(vp.SPEC + "/MC_Atoms.cfg").read().replace("NAtoms = 44", "NAtoms = %d" % len(SIG)).replace("MaxAtoms = 2", "MaxAtoms = 3"))
+    rs = vp.tlc("MC_Atoms", "MC_Atoms_run", workers=4, timeout=3000, name="c06-sig", xmx="16g")
+    C.add_tlc(rs, "MC_Atoms (sequences of <= 3 of %d component-signature atoms)" % len(SIG))
+    for seq in rs.tags["VEC"]:
+        body = "".join(SIG[i - 1] for i in seq)
+        for src in ("{% component c(" + body + ") %}x{% endcomponent c %}{{<c/>}}", "{% component c(" + body + ") {'k': 1} %}x{% endcomponent %}",
+                    "{% component c(p=1, ...rest) %}x{% endcomponent c %}{{<c " + body + " />}}"):
+            ajobs.append({"cfg": {}, "steps": [{"op": "add", "tpls": [["t", src]]}, {"op": "render_str", "src": src, "auto": False}, {"op": "compdef", "name": "c"}]})
+            ameta.append((seq, "default", src))
+    # delimiter sets (MC_Delims): acceptance by set_delimiters as specified; every accepted set then lexes sources in which
+    # each delimiter occurs in the middle, at the very end of the input, unterminated, with `-` markers and around raw
+    DSTR = {"empty": "", "one": "#", "sq": "[[", "ang": "<%", "guil": "\u00ab", "eacute": "\u00e9", "pct": "%%", "cjk": "\u65e5", "three": "{{{", "emoji": "\U0001F600",
+            "bs": "{%", "be": "%}", "vs": "{{", "ve": "}}", "cs": "{#", "ce": "#}"}
+    rd = vp.tlc("MC_Delims", "MC_Delims", workers=4, timeout=600, name="c06-delims")
+    C.add_tlc(rd, "MC_Delims (delimiter sets differing from the default in <= 2 positions)")
+    seen_d = set()
+    for v in rd.tags["VEC"]:
+        d = [DSTR[x] for x in v["d"]]
+        if tuple(d) in seen_d:
+            continue
+        seen_d.add(tuple(d))
+        BS, BE, VS, VE, CS, CE = d
+        srcs = ["a " + CS + " c " + CE + " b", "a " + CS + " c " + CE, CS + CE, "a " + CS + " c", "a " + CS, VS + " 1 " + VE, "x" + VS + "1" + VE, VS + " 1", VS,
+                BS + " if 1 " + BE + "x" + BS + " endif " + BE, "a " + BS + " if 1 " + BE, BS, "a" + BS + "- raw -" + BE + " r " + BS + "- endraw -" + BE + "b",
+                "a " + CS + "- c -" + CE + " b", "\u65e5" + CS + "\u65e5" + CE + "\u65e5", "a" + CE + VE + BE, CS + " " + CE[:1], "a " + VS + "- 1 -" + VE + " \u00e9"]
+        ajobs.append({"cfg": {"delims": d}, "steps": [{"op": "render_str", "src": s_, "auto": False} for s_ in srcs] + [{"op": "add", "tpls": [["t", srcs[0]]]}]})
+        ameta.append((["delimiter set", v["ok"]], "custom", json.dumps(d)))
     ares = vp.run_jobs(ajobs, tag="c06-atoms", timeout=3000, may_abort=True)
     for (seq, ds, src), rr in zip(ameta, ares):
         C.count()
         C.nontrivial([seq, ds])
         if any(y.get("panic") or y.get("abort") for y in rr):
             C.violation({"kind": "atoms", "src": src, "delims": ds}, "panic/abort on source %r under %s delimiters: %s" % (src, ds, [y.get("msg") or y.get("rc") for y in rr if y.get("panic") or y.get("abort")]),
-                        {"src": src, "delims": DSETS[ds]})
+                        {"src": src, "delims": DSETS.get(ds, src)})
+        elif seq[0] == "delimiter set":
+            accepted = not (len(rr) == 1 and rr[0].get("kind") == "Config")
+            if accepted != seq[1]:
+                C.violation({"kind": "delimiter-validation", "delims": src}, "set_delimiters %s the set %s; the rule (six delimiters of exactly 2 bytes, three different start delimiters) %s it" % (
+                    "accepts" if accepted else "refuses", src, "accepts" if seq[1] else "refuses"), {"delims": json.loads(src), "result": rr[:1]})
     C.cov["rule"] = ("24 recursion shapes x 9-10 sizes (watched process, gauge hook); all sequences of <= %d of %d lexical atoms x 3 delimiter sets through add and render_str; "
                      "non-trivial = distinct (shape, size) / (atom sequence, delimiter set)" % (maxatoms, len(ATOMS)))
     C.sample({"shape": "binop", "n": 3, "src": shape_src("binop", 3)})
